@@ -269,7 +269,11 @@ func c17Command(rc *RunCtx, t *simrt.Tape) {
 	}
 	bit := t.Choose(8)
 	data := append([]byte(nil), image...)
-	if viaStdin && codec == 1 && N > 24 && t.Choose(3) == 2 {
+	if viaPipe && t.Choose(4) == 3 {
+		// a damaged magic number: for zlib the stream is then not gzip at all and is handed
+		// over as it is (binary text without any record)
+		kind, k = fkFlip, t.Choose(2)
+	} else if viaStdin && codec == 1 && N > 24 && t.Choose(3) == 2 {
 		// the whole 8-byte trailer (CRC and length) missing: the cut a decoder is most likely
 		// to take for a clean end of data
 		kind, k = fkTruncate, N-8
@@ -405,6 +409,13 @@ func c17Command(rc *RunCtx, t *simrt.Tape) {
 	}
 	if kind == fkFlip && complete {
 		rc.Probe("flip_immaterial")
+		return
+	}
+	if viaStdin && kind == fkFlip && k < 3 && len(all) > 0 {
+		// the magic number is gone: the C reader sees binary text, and binary text that happens
+		// to contain "@x\nr\n+\n;" is a record for it.  Only the run that ends successfully
+		// with nothing at all is a violation here.
+		rc.Probe("damaged_magic_read_as_text")
 		return
 	}
 	dec := "decoder-reported"
